@@ -25,6 +25,25 @@ check('C17', 'exploration',
       'Reference table taken from the statement/EPANET manual; FlowUnits.SI factor of diameter/power/roughness not judged.',
       'DESIGN.md#C17')
 
+SIMNOTE = ('Oracle independent of the simulator (adjacency from link end-node names, own pattern clock, documented laws); '
+           'runs that do not converge are inconclusive; held = no observed event contradicted the oracle on the executions '
+           'listed in the evidence file, nothing is claimed about networks the generators cannot produce.')
+check('C01', 'exploration', 'offline checker over reported result tables: per-node flow balance + independent demand clock, on seeded random and perturbed example networks',
+      'Every junction/tank/reservoir x reported step of hundreds of seeded simulations (loops, parallel links, tanks, leaks, '
+      'isolation schedules, DD/PDD, pattern_start) is checked for |in-out-demand-leak| <= solver tolerance and DD demand == '
+      'base x pattern(t+pattern_start) x multiplier.', SIMNOTE, 'DESIGN.md#C01')
+check('C02', 'exploration', 'offline checker of the documented head-flow law per link type x reported status, plus evaluator sweep of pipe rows; reference pump-curve fit',
+      'Every link x reported step judged by its type/status law with coefficients recomputed independently; valve rigs force '
+      'every status bucket (coverage floors per bucket); pipe rows swept through the compiled evaluator for oddness, '
+      'monotonicity, continuity; in-place pump-curve re-calibration histories.', SIMNOTE, 'DESIGN.md#C02')
+check('C06', 'exploration', 'hook on every accepted solved step (incl. partial steps): tank volume integration against reference volume function, limit and no-discharge/no-fill checks',
+      'Every pair of consecutive accepted steps x tank: V(level) changes by inflow x dt (cylinder or reference interpolation '
+      'of the volume curve); level within [min,max] up to 2 s of flow; no discharge at min / fill at max.', SIMNOTE, 'DESIGN.md#C06')
+check('C09', 'exploration', 'isolation flags observed at the save_results hook vs reference BFS over reported statuses; spy on the C++ search arrays; ASan+UBSan re-run',
+      'Every junction x reported step: isolated <=> no path of non-closed links to a source <=> zeroed results; connected => '
+      'never flagged and (DD) full demand; each call of the C++ search compared with BFS on the same CSR arrays; a subset of '
+      'cases repeated under the sanitizer build of network_isolation.cpp.', SIMNOTE, 'DESIGN.md#C09')
+
 NOT_YET = 'monitor not built yet in this commit (planned in DESIGN.md section 4)'
 ALL = ['C%02d' % i for i in range(1, 21)]
 
